@@ -1,7 +1,6 @@
 package sim
 
 import (
-	"fmt"
 	"sort"
 
 	"massnet.org/mass-wallet/masswallet"
@@ -21,7 +20,7 @@ func (inst *Instance) ListWallets() ([]WalletListing, error) {
 	var sums []*masswallet.WalletSummary
 	var err error
 	if !inst.RunCall("Wallets", true, func() { sums, err = inst.WM.Wallets() }) {
-		return nil, fmt.Errorf("Wallets did not finish")
+		return nil, inst.unfinished("Wallets")
 	}
 	if err != nil {
 		return nil, err
@@ -38,7 +37,7 @@ func (inst *Instance) ListWallets() ([]WalletListing, error) {
 func (inst *Instance) RemoveWallet(id, pass string, solo bool) error {
 	var err error
 	if !inst.RunCall("RemoveWallet", solo, func() { err = inst.WM.RemoveWallet(id, pass) }) {
-		return fmt.Errorf("RemoveWallet did not finish")
+		return inst.unfinished("RemoveWallet")
 	}
 	if err == nil {
 		if ws := inst.Wallets[id]; ws != nil {
@@ -59,7 +58,7 @@ func (inst *Instance) ImportMnemonic(src *WalletState, extHint uint32, solo bool
 	params := &keystore.WalletParams{Mnemonic: src.Mnemonic, PrivatePassphrase: []byte(src.Pass), Remarks: "imp",
 		ExternalIndex: extHint, AddressGapLimit: inst.Cfg.Wallet.Settings.AddressGapLimit}
 	if !inst.RunCall("ImportMnemonic", solo, func() { sum, err = inst.WM.ImportWalletWithMnemonic(params) }) {
-		return nil, fmt.Errorf("ImportWalletWithMnemonic did not finish")
+		return nil, inst.unfinished("ImportWalletWithMnemonic")
 	}
 	if err != nil {
 		return nil, err
@@ -75,7 +74,7 @@ func (inst *Instance) ExportWallet(id, pass string, solo bool) (string, error) {
 	var js string
 	var err error
 	if !inst.RunCall("ExportWallet", solo, func() { js, err = inst.WM.ExportWallet(id, pass) }) {
-		return "", fmt.Errorf("ExportWallet did not finish")
+		return "", inst.unfinished("ExportWallet")
 	}
 	return js, err
 }
@@ -85,7 +84,7 @@ func (inst *Instance) ImportKeystore(src *WalletState, js string, solo bool) (*W
 	var sum *masswallet.WalletSummary
 	var err error
 	if !inst.RunCall("ImportWallet", solo, func() { sum, err = inst.WM.ImportWallet(js, src.Pass) }) {
-		return nil, fmt.Errorf("ImportWallet did not finish")
+		return nil, inst.unfinished("ImportWallet")
 	}
 	if err != nil {
 		return nil, err
